@@ -276,7 +276,7 @@ Proof.
   split; [apply Nat.leb_le; exact H1|]. split; [|split].
   - apply Forall_forall. intros p Hp. apply Forall_forall. intros o Ho.
     rewrite forallb_forall in H2. specialize (H2 p Hp). rewrite forallb_forall in H2. specialize (H2 o Ho).
-    destruct o; simpl; auto. apply nodupb_ok. exact H2.
+    destruct o; simpl; auto; apply nodupb_ok; exact H2.
   - apply Forall_forall. intros p Hp. apply Forall_forall. intros o Ho k Hk.
     rewrite forallb_forall in H3. specialize (H3 p Hp). rewrite forallb_forall in H3. specialize (H3 o Ho).
     unfold small_opb in H3. rewrite forallb_forall in H3. apply Nat.ltb_lt. now apply H3.
